@@ -209,7 +209,7 @@ class C08(Property):
             "(sequence op or mapping op according to its kind), with plain values, fresh Elements and Elements "
             "detached by earlier calls or owned by another container; cases the Lean model does not cover (flat routes, "
             "model paths answering unsupported) are marked oracle-only before the run and are not counted as validated "
-            "traces (tag model=oracle-only); non-trivial = the tree has at least 4 elements at some point and at least 3 "
+            "traces (tag model=oracle-only); Reading is part of the history: Element arguments (fresh, foreign-owned, pooled, populated subtrees) have root/path/parents/fq_name READ before they are handed over in half of the cases, and 'observe' steps read every reachable and every detached element; 15 % of nested mapping classes are derived from an already used parent class with another field list. non-trivial = the tree has at least 4 elements at some point and at least 3 "
             "calls changed it")
     quick_n = 30000
     thorough_n = 250000
@@ -258,6 +258,17 @@ class C08(Property):
                             {"t": 1, "m": {"op": "setitem", "k": "month", "a": {"v": 2}}}]})
         out.append({"schema": form, "nomodel": True, "init": {"route": "from_flat", "pairs": [["form_title", "x"]]},
                     "ops": [{"t": 2, "s": {"op": "append", "a": {"v": {"l": ["", ""]}}}}]})
+        # reading is part of the history (seeded mutation C14-root-lazy-property: `root` computed once and kept):
+        # an Element argument whose root / path / parents / fq_name are READ before it is appended, a populated subtree
+        # built separately, read, and then grafted into a bigger tree, reads at random points in between
+        inner = _cont(2, "dict", [_sc(3, "integer", "x"), _cont(4, "list", [_sc(5, "string")], name="y")])
+        out.append({"schema": _cont(1, "list", [inner]), "init": {"route": "ctor", "value": None},
+                    "ops": [{"t": 0, "s": {"op": "append", "a": {"new": {"d": [["x", 1], ["y", {"l": ["a", "b"]}]]}, "touch": True}}},
+                            {"t": 0, "s": {"op": "observe"}, "m": {"op": "observe"}},
+                            {"t": 0, "s": {"op": "insert", "i": 0, "a": {"new": {"d": [["x", 2], ["y", {"l": []}]]}, "touch": True, "foreign": True}}},
+                            {"t": 2, "s": {"op": "append", "a": {"new": "q", "touch": True}}, "m": {"op": "observe"}},
+                            {"t": 0, "s": {"op": "pop", "i": 0}}, {"t": 0, "s": {"op": "observe"}},
+                            {"t": 0, "s": {"op": "append", "a": {"pool": 0, "touch": True}}}]})
         # oracle-only construction routes
         out.append({"schema": _cont(1, "list", [_cont(2, "dict", [_sc(3, "integer", "x")])], name="l"),
                     "init": {"route": "from_flat", "pairs": [["l_0_x", "1"], ["l_2_x", "2"], ["l_1_x", "z"]]},
